@@ -64,7 +64,9 @@ def check_pair(ctx, sc):
         if len(n_term) > 1:
             acse = [e[3] for e in rec.events if e[1] == key and e[2] == "EVT_ACSE_SENT"]
             when = "during-own-release" if "A_RELEASE" in acse else "no-own-release"
-            ctx.fail("terminal-event-count", f"{name}:{'+'.join(sorted(n_term))}:{when}" + (":dul-died" if died else ""), f"{name} fired terminal events {n_term}; outcome {o}; scenario {_brief(sc)}")
+            kinds = sorted(set(n_term))
+            label = f"{kinds[0]}-repeated" if len(kinds) == 1 else "+".join(kinds)
+            ctx.fail("terminal-event-count", f"{name}:{label}:{when}" + (":dul-died" if died else ""), f"{name} fired terminal events {n_term}; outcome {o}; scenario {_brief(sc)}")
             return
         if died:
             continue
